@@ -207,6 +207,7 @@ class ImmutabilityGuard:
         self.last = {}                      # qual -> arrays of the previous depth-0 result (strong references)
         self.own_stats = {'recalled': 0, 'skipped_impure': 0, 'skipped_slow': 0, 'skipped_view_of_argument': 0, 'clobber_checked': 0}
         self._sig = {}
+        self._fp = None
         self.depth = 0
         self.events = []
         self.installed = 0
@@ -511,7 +512,9 @@ class ImmutabilityGuard:
                 return f(*a, **kw)
             before = [(i, x, guard._snap(x)) for i, x in enumerate(a)] + [(k, x, guard._snap(x)) for k, x in kw.items()]
             prev = guard._clobber_before(qual) if guard.own else None
-            fp0 = rng_fingerprint() if guard.own else None
+            # fingerprint before the call = the one taken after the previous wrapped call (if the harness drew from a global
+            # generator in between, the call merely looks impure and the repetition is skipped: the safe direction)
+            fp0 = (guard._fp if guard._fp is not None else rng_fingerprint()) if guard.own else None
             guard.depth += 1
             t0 = time.perf_counter()
             try:
@@ -524,7 +527,8 @@ class ImmutabilityGuard:
                     guard.events.append((qual, i))
             if guard.own:
                 guard._clobber_after(qual, prev)
-                if rng_fingerprint() == fp0:
+                guard._fp = rng_fingerprint()
+                if guard._fp == fp0:
                     guard._own_check(f, qual, a, kw, r, dt)
                 else:
                     guard.own_stats['skipped_impure'] += 1  # the call consumed randomness: repeating it is not a repetition
